@@ -46,8 +46,13 @@ RULE = (
     "the whole payload."
 )
 ASSUMPTIONS = [
-    "integer components are given non-integral values only when the configuration rounds integers (round_ints and an "
-    "integer variable); exact ties x.5 are never generated",
+    "integer components may be given non-integral values inside their bounds whatever round_ints is (exact ties x.5 "
+    "never): with round_ints=True they are rounded, round_ints=False exists to evaluate the functions at relaxed values "
+    "(check_membership of an array only checks the bounds, drivers forward round_ints unchanged), so with physical "
+    "inputs and rounding off the physical point is the caller's point itself",
+    "with normalised inputs the physical point is the image by DesignSpace.unnormalize_vect, which rounds the integer "
+    "components whatever round_ints is (the generic wrapper and the database key both use it); this is taken as the "
+    "definition of the normalised -> physical map, not asserted as right or wrong for round_ints=False",
     "normalised coordinates lie in [0,1], physical ones inside the bounds; -0.0 is never a coordinate",
     "approximated derivatives (finite/centered differences, complex step) are only generated on all-float spaces; the "
     "design space gets initialize_missing_current_values() and to_complex() before complex_step, as the drivers do",
@@ -72,6 +77,7 @@ EPS = float(np.finfo(float).eps)
 K_ROUND_KEY = "unnormalized_rounding_keys_unrounded_point"
 K_SPARSE_NAN = "sparse_jacobian_unnormalized_database_isnan"
 K_CENTERED_EQUAL = "centered_differences_equal_bounds_nan"
+K_FAST_LINEAR = "linear_fast_path_unrounded_value_under_rounded_key"
 
 
 # --------------------------------------------------------------------------- strategy
@@ -213,8 +219,8 @@ def _case_history(p, ctx):
     n_fn = len(polys)
 
     # ----- known findings: exclusion by construction
-    allow_frac = model.round_effective
-    if allow_frac and not cfg["norm"] and cfg["use_db"] and ctx.known(K_ROUND_KEY, count=False):
+    allow_frac = space.has_integer
+    if model.round_effective and not cfg["norm"] and cfg["use_db"] and ctx.known(K_ROUND_KEY, count=False):
         used = {r["pt"] % len(p["points"]) for r in p["requests"]}
         if any(not np.array_equal(space.realise(p["points"][i], True)[1], space.realise(p["points"][i], False)[1]) for i in used):
             ctx.known(K_ROUND_KEY)  # counted: the non-integral integer coordinates of this case are made integral
@@ -254,8 +260,14 @@ def _case_history(p, ctx):
     seen_pairs = set()
 
     # ----- one function request, real side and model side in lock-step
-    def excluded(poly, kind):
+    def excluded(poly, kind, fn_input):
         """Requests in the class of an open known finding (skipped, counted)."""
+        if kind == "f" and model.fast_linear(poly) and space.has_integer:
+            affine = space.to_phys(fn_input, round_ints=False)
+            if bool(np.any(np.abs(affine - space.round(affine)) > 1e-9)):
+                ctx.cls("class_linear_fast_path_at_non_integral_integer_coordinate")
+                if ctx.known(K_FAST_LINEAR):
+                    return True
         if kind != "j":
             return False
         if (model.user_diff and not cfg["norm"] and cfg["use_db"] and cfg["sparse"] and poly.sparse):
@@ -398,10 +410,10 @@ def _case_history(p, ctx):
         if r["op"] in ("evaluate", "jac"):
             i = r["fn"] % n_fn
             kind = "f" if r["op"] == "evaluate" else "j"
-            if excluded(polys[i], kind):
+            fn_input = (xn if cfg["norm"] else x).copy()
+            if excluded(polys[i], kind, fn_input):
                 stats["skipped"] += 1
                 continue
-            fn_input = (xn if cfg["norm"] else x).copy()
             before = len(polys[i].log)
             others = [len(q.log) for q in polys]
             if kind == "f":
@@ -418,12 +430,12 @@ def _case_history(p, ctx):
             sel = list(range(n_fn)) if r["all"] else sorted({r["fn"] % n_fn, (r["fn"] // 2) % n_fn})
             want_out = r["want"] in ("out", "both")
             want_jac = r["want"] in ("jac", "both")
-            if want_jac and any(excluded(polys[i], "j") for i in sel):
+            vector = (xn if as_norm else x).copy()
+            fn_input = model.fn_input_from_vector(vector, as_norm)
+            if (want_jac and any(excluded(polys[i], "j", fn_input) for i in sel)) or (want_out and any(excluded(polys[i], "f", fn_input) for i in sel)):
                 stats["skipped"] += 1
                 continue
-            vector = (xn if as_norm else x).copy()
             fn_list = () if r["all"] else [fns[i] for i in sel]
-            fn_input = model.fn_input_from_vector(vector, as_norm)
             before = [len(q.log) for q in polys]
             outs, jacs = problem.evaluate_functions(
                 vector.copy(), design_vector_is_normalized=as_norm,
